@@ -23,6 +23,7 @@ Small ==
   \cup {AdjProg(18, i, j) : <<i, j>> \in {<<1, 2>>, <<16, 17>>, <<17, 1>>, <<8, 9>>}}
   \cup {ConcatProg(<<"MODULE">>, <<"FUNCTION">>)}
   \cup {ShiftHoleProg(k, m, sh) : k \in 0..2, m \in Masks(2), sh \in 0..2}
+  \cup {ShiftLoopProg(kd, t[1], t[2], n) : kd \in LoopKinds, t \in {<<0, 2>>, <<1, 1>>, <<1, 3>>, <<2, 3>>}, n \in 0..2}
   \cup {ScopeProg(o, i, n, pre) : o \in ScopeOuters, i \in ScopeInners, n \in {0, 2}, pre \in BOOLEAN}
 
 Programs == NestPrograms(MaxD, Cnts, [npre |-> NPre, npost |-> NPost, rich |-> Rich]) \cup (IF Focus THEN Small ELSE {})
